@@ -37,6 +37,10 @@ PYJS = os.path.join(VERIF, "tools", "lib", "c11_pyjs.py")
 
 F_DELIVERY = "C11-delivery-enum"
 F_MXTAXID = "C11-mx-taxid-chars"
+F_REGIME = "C11-regime-unchecked"
+F_NULLELEM = "C11-null-list-element"
+F_NILSLICE = "C11-nil-slice-null"
+F_UNVALIDATED = "C11-field-not-validated"
 
 
 # ----------------------------------------------------------------------------------------------
@@ -285,25 +289,98 @@ def targets(env):
     return t
 
 
-def mx_taxid_finding(pyres, inst):
-    """narrow matcher of C11-mx-taxid-chars: every schema error is the pattern of a tax_id.code whose
-    country is MX and whose code contains & or N-tilde."""
-    errs = pyres.get("errors", [])
-    if not errs:
-        return False
-    for e in errs:
-        at = e.get("at", [])
-        if e.get("kw") != "pattern" or len(at) < 2 or at[-1] != "code" or at[-2] != "tax_id":
-            return False
-        x = inst
+_LEAF = {}
+
+
+def leaf_ok(kind, value):
+    """the value type's own rule in Go: cbc.Code(v).Validate() / cbc.Key(v).Validate()"""
+    k = (kind, value)
+    if k not in _LEAF:
+        o = run_go(["c11 leaf %s x%s" % (kind, value.encode("utf-8", "surrogatepass").hex())])[0]
+        _LEAF[k] = parse_wire(o) == [1]
+    return _LEAF[k]
+
+
+_RULES = {}
+
+
+def go_rules():
+    """cbc.KeyPattern / cbc.CodePattern as the repository under test defines them (read from the
+    schema files' own definitions would beg the question: these come from the Go source text)."""
+    if not _RULES:
+        for name, f, var in (("key", "cbc/key.go", "KeyPattern"), ("code", "cbc/code.go", "CodePattern")):
+            src = open(os.path.join(REPO, f)).read()
+            m = re.search(r"\b%s\s*=\s*`([^`]*)`" % var, src)
+            _RULES[name] = m.group(1) if m else None
+    return _RULES
+
+
+def at_value(inst, at):
+    x = inst
+    for k in at:
+        x = x[int(k)] if isinstance(x, list) else x[k]
+    return x
+
+
+def classify(e, inst, sid):
+    """maps ONE schema error on a Go-accepted document to the recorded finding it is an instance of,
+    or None (= a new failing input)."""
+    at = e.get("at", [])
+    kw = e.get("kw")
+    if e.get("malformed"):
+        # an error produced by an ill-typed keyword: only the recorded one is excused
+        return F_DELIVERY if (sid == GOBL + "bill/delivery" and kw == "enum" and at == ["type"]) else None
+    try:
+        val = at_value(inst, at)
+    except (KeyError, IndexError, ValueError, TypeError):
+        return None
+    # C11-mx-taxid-chars: pattern of tax_id.code, country MX, code with & or N-tilde
+    if kw == "pattern" and len(at) >= 2 and at[-1] == "code" and at[-2] == "tax_id":
         try:
-            for k in at[:-1]:
-                x = x[int(k)] if isinstance(x, list) else x[k]
+            tid = at_value(inst, at[:-1])
         except (KeyError, IndexError, ValueError, TypeError):
-            return False
-        if not (isinstance(x, dict) and x.get("country") == "MX" and isinstance(x.get("code"), str) and re.search("[&Ñ]", x["code"])):
-            return False
-    return True
+            tid = None
+        if isinstance(tid, dict) and tid.get("country") == "MX" and isinstance(val, str) and re.search("[&Ñ]", val) \
+                and re.fullmatch("[A-ZÑ&0-9]+", val):
+            return F_MXTAXID
+    # C11-regime-unchecked (DESIGN section 8 #24): $regime is never checked by the library
+    if at and at[-1] == "$regime" and isinstance(val, str):
+        return F_REGIME
+    # C11-null-list-element: a null element of a list of objects is accepted and serialised as null
+    if kw == "type" and val is None and at and at[-1].isdigit():
+        return F_NULLELEM
+    # C11-nil-slice-null: a nil slice in a member without omitempty is serialised as null
+    if kw == "type" and val is None and e.get("kw_value") == "array" and at and not at[-1].isdigit():
+        return F_NILSLICE
+    # C11-field-not-validated: a Code / Key typed field that the library does not validate - the
+    # value type's OWN Validate() rejects the value, the parent never calls it
+    if kw in ("pattern", "minLength", "maxLength") and isinstance(val, str):
+        rules = go_rules()
+        for kind in ("code", "key"):
+            # (an empty value passes the type's own rule - presence is the parent's `Required` - so an
+            # empty Code / Key in a member without omitempty is the same missing parent validation)
+            if e.get("leaf_pattern") is not None and e.get("leaf_pattern") == rules.get(kind) and (val == "" or not leaf_ok(kind, val)):
+                return F_UNVALIDATED
+    return None
+
+
+def is_year0(e):
+    return e.get("kw") == "format" and isinstance(e.get("value"), str) and e["value"].startswith("0000-")
+
+
+def py_effective(p):
+    """python's verdict without its year-0000 format errors (python's datetime cannot represent year
+    0000, which RFC 3339 allows: the one known divergence). -> (verdict, number of such errors)"""
+    errs = p.get("errors", [])
+    y0 = [e for e in errs if is_year0(e)]
+    if not y0 or p["v"] not in ("invalid",):
+        return p["v"], 0
+    rest = [e for e in errs if not is_year0(e)]
+    if any(not e.get("malformed") for e in rest):
+        return "invalid", len(y0)
+    if rest or p.get("crashed"):
+        return "undetermined", len(y0)
+    return "valid", len(y0)
 
 
 def shrink(doc, still_fails, budget=80):
@@ -331,8 +408,9 @@ def shrink(doc, still_fails, budget=80):
     return cur
 
 
-def fails_P(doc):
-    """Go accepts doc and a published schema rejects (by the model and python) its output. -> (bool, detail)"""
+def fails_P(c, doc):
+    """Go accepts doc and a published schema rejects its output (model and python agree) with at least one
+    error that is not an instance of a recorded finding. -> (bool, detail)"""
     acc, out, kind = go_run([doc])[0]
     if not acc:
         return False, None
@@ -341,7 +419,9 @@ def fails_P(doc):
     pv = py_validate(tg, nproc=1)
     for (sid, inst), m, p in zip(tg, mv, pv):
         if m == "invalid" and p["v"] == "invalid":
-            return True, {"schema": sid, "output": out, "model": m, "python": p}
+            new = [e for e in p["errors"] if not is_year0(e) and not (classify(e, inst, sid) and c.known(classify(e, inst, sid)))]
+            if new:
+                return True, {"schema": sid, "output": out, "model": m, "python": dict(p, errors=new[:6])}
     return False, None
 
 
@@ -429,46 +509,53 @@ def judge(c, stream, items, state):
             continue
         key = json.dumps(inst, sort_keys=True)
         c.count(stream + ("/go-accepted" if acc else "/go-rejected(validators compared)"), 1, (sid, key))
-        state["verdicts"][(acc, m, p["v"])] = state["verdicts"].get((acc, m, p["v"]), 0) + 1
-        if m == "unknown-schema" and p["v"] == "unknown-schema":
+        pvv, ny0 = py_effective(p)
+        if ny0:
+            state["python_year0"] = state.get("python_year0", 0) + 1
+            p = dict(p, errors=[e for e in p["errors"] if not is_year0(e)])
+        state["verdicts"][(acc, m, pvv)] = state["verdicts"].get((acc, m, pvv), 0) + 1
+        if m == "unknown-schema" and pvv == "unknown-schema":
             if acc:
                 c.report("Go accepted a document whose schema %s is not published" % sid, {"document": d, "schema": sid})
             continue
-        if m != p["v"]:
+        if m != pvv:
             # the two readings of the schema disagree
             if state["disagree"] < 3:
                 c.report("validator disagreement on (%s, %s document): extracted model says %s, python jsonschema says %s %s" % (
-                    sid, "Go-accepted" if acc else "Go-rejected", m, p["v"], p.get("errors", [])[:2]),
-                    {"correspondence": "oracle:C11:%s" % stream, "schema": sid, "instance": inst, "model": m, "python": p, "label": label}, no_input=True)
+                    sid, "Go-accepted" if acc else "Go-rejected", m, pvv, p.get("errors", [])[:2]),
+                    {"correspondence": "oracle:C11:%s" % stream, "schema": sid, "instance": inst, "model": m, "python": dict(p, errors=p.get("errors", [])[:6]), "label": label}, no_input=True)
             state["disagree"] += 1
             continue
-        if not acc:
-            continue
-        if m == "valid":
+        if not acc or m == "valid":
             continue
         if m == "undetermined":
             fid = F_DELIVERY if sid == GOBL + "bill/delivery" else None
-            c.report("the published schema %s has no defined verdict on a document the library accepted (ill-typed keyword): %s" % (sid, p.get("errors", [])[:1]),
-                     {"document": d, "schema": sid, "python": p}, finding_id=fid)
+            c.report("the published schema %s has no defined verdict on a document the library accepted (ill-typed keyword): %s" % (sid, [e["msg"] for e in p.get("errors", [])[:1]]),
+                     {"document": d, "schema": sid, "python": dict(p, errors=p.get("errors", [])[:6])}, finding_id=fid)
             continue
-        # Go accepted, both validators reject: the failing input
-        if mx_taxid_finding(p, inst) and c.known(F_MXTAXID):
-            c.report("accepted MX tax code rejected by tax/identity schema: %s" % p["errors"][0]["msg"], {"document": d}, finding_id=F_MXTAXID)
+        # Go accepted, both validators reject
+        new = []
+        for e in p["errors"]:
+            fid = classify(e, inst, sid)
+            if fid and c.known(fid):
+                loc = "%s:%s" % (sid[len(GOBL):], "/".join("*" if x.isdigit() else x for x in e["at"]))
+                state["finding_locations"].setdefault(fid, {})
+                state["finding_locations"][fid][loc] = state["finding_locations"][fid].get(loc, 0) + 1
+                c.report("%s at %s: %s" % (sid[len(GOBL):], "/".join(e["at"]), e["msg"]), {"document": d}, finding_id=fid)
+            else:
+                new.append(e)
+        if not new:
             continue
+        # a failing input that no recorded finding explains
         if state["reported"] >= 3:
             state["reported"] += 1
             continue
         state["reported"] += 1
-
-        def still(x):
-            f, det = fails_P(x)
-            if not f:
-                return False
-            return not (c.known(F_MXTAXID) and mx_taxid_finding(det["python"], det["output"] if det["schema"].endswith("/envelope") else det["output"].get("doc")))
-        small = shrink(d, still) if still(d) else d
-        f, det = fails_P(small)
+        f0, det0 = fails_P(c, d)
+        small = shrink(d, lambda x: fails_P(c, x)[0]) if f0 else d
+        f, det = fails_P(c, small)
         if not f:
-            small, det = d, {"schema": sid, "output": out, "model": m, "python": p}
+            small, det = d, {"schema": sid, "output": out, "model": m, "python": dict(p, errors=new[:6])}
         c.report("the library accepted a document that its published schema %s rejects: %s" % (det["schema"], [e["msg"] for e in det["python"].get("errors", [])[:2]]),
                  {"document": small, "schema": det["schema"], "go": "accepted", "serialised_output": det["output"], "model_validator": det["model"],
                   "python_jsonschema": det["python"], "label": label,
@@ -536,7 +623,7 @@ def check_patterns(c, n):
     pairs = [(GOBL + "cal/date", d) for d in dates]
     for (sid, d), m, p in zip(pairs, model_validate(pairs), py_validate(pairs, nproc=1)):
         c.count("formats", 1, d)
-        if m != p["v"] and bad < 6:
+        if m != p["v"] and not (m == "valid" and d.startswith("0000-")) and bad < 6:
             bad += 1
             c.report("format date on %r: extracted model %s, python jsonschema %s" % (d, m, p["v"]),
                      {"correspondence": "oracle:C11:formats", "string": d, "model": m, "python": p}, no_input=True)
@@ -560,7 +647,7 @@ def run(c):
 
     check_schema_files(c)
 
-    state = {"go": {}, "verdicts": {}, "disagree": 0, "reported": 0}
+    state = {"go": {}, "verdicts": {}, "disagree": 0, "reported": 0, "finding_locations": {}}
     ex = example_outputs()
     c.cov["example_outputs"] = len(ex)
     items = []
@@ -601,6 +688,9 @@ def run(c):
     c.cov["go_outcomes"] = state["go"]
     c.cov["verdicts(go_accepted, model, python)"] = {"%s/%s/%s" % k: v for k, v in sorted(state["verdicts"].items(), key=str)}
     c.cov["validator_disagreements"] = state["disagree"]
+    c.cov["python_year_0000_divergence(not compared)"] = state.get("python_year0", 0)
+    c.cov["known_finding_locations"] = state["finding_locations"]
+    c.cov["failing_inputs_not_explained_by_a_recorded_finding"] = state["reported"]
     c.cov["rule"] = ("schema files: all files under data/schemas (exhaustive); documents: every example output under */out (envelope and bare document), invoices generated "
                      "from the seed (calcgen), and 1-3 field-level mutations of the examples (dates, amounts, percentages, keys, codes, uuids, currency and country codes, "
                      "text, numbers, map entries, dropped members, duplicated elements, retyped values; 70% of replaced values valid). Every document goes through Go; "
@@ -622,6 +712,7 @@ def replay(path):
     if "document" in r:
         acc, out, kind = go_run([r["document"]])[0]
         print("implementation:", "accepted" if acc else "rejected (%s)" % kind)
+        print("document:", json.dumps(r["document"])[:1500])
         if acc:
             tg = targets(out)
             for (sid, inst), m, p in zip(tg, model_validate(tg), py_validate(tg, nproc=1)):
